@@ -64,7 +64,8 @@ func wantMutex(mode, depth int) bool {
 }
 
 // behaviour modes (options and earlier refused calls that must not matter to Reveal):
-// 0 none, 1 forward indices, 2 negative indices, 3 capacity reached + refused calls made earlier, 4 all of these
+// 0 none, 1 forward indices, 2 negative indices, 3 capacity reached + refused calls made earlier, 4 all of these,
+// 5 the receiver is read-only (set just before the call; nothing may change)
 func (n rnode) build(path string, depth, mmode int, beh ...int) any {
 	bm := 0
 	if len(beh) > 0 {
@@ -432,6 +433,7 @@ func c20Run(c *Ctx, cs c20Case, count bool) {
 		c.States.Add(1)
 	}
 	var dead bool
+	var ret stackage.Stack
 	p := func() (msg string) {
 		defer func() {
 			if r := recover(); r != nil {
@@ -443,7 +445,10 @@ func c20Run(c *Ctx, cs c20Case, count bool) {
 				msg = fmt.Sprint(r)
 			}
 		}()
-		root.Reveal()
+		if cs.Beh == 5 {
+			root.SetReadOnly(true)
+		}
+		ret = root.Reveal()
 		return ""
 	}()
 	if dead {
@@ -462,7 +467,16 @@ func c20Run(c *Ctx, cs c20Case, count bool) {
 			}
 		}
 	}
+	// the fluent result is the receiver: whoever continues with the returned value continues with the tree
+	if dr, d0 := stackage.VerifDump(ret), stackage.VerifDump(root); dr == nil || dr.Nil || dr.Addr != d0.Addr {
+		c.Violation("returned-value-is-not-the-receiver", fmt.Sprintf("Reveal() on %s (behaviour mode %d; 5 = read-only receiver) returned a Stack that is not the receiver (initialised: %v, Len %d): the tree is lost to a caller who continues with the result", cs.Tree, cs.Beh, ret.IsInit(), ret.Len()), cs, size)
+		return
+	}
 	after := takeSnap(root)
+	if cs.Beh == 5 && after.String() != before.String() {
+		c.Violation("read-only-receiver-changed", fmt.Sprintf("Reveal changed a read-only receiver: before %s after %s", before, after), cs, size)
+		return
+	}
 	var lb, la []string
 	before.leaves(&lb)
 	after.leaves(&la)
@@ -607,9 +621,9 @@ func init() {
 		}
 		c.Rule = "every tree of the bounded family (kinds AND/OR/NOT/LIST, parenthetical flags, children: leaf, nil, empty Stack, Stack, Condition(leaf), Condition(Stack), parenthetical Conditions; all single-child chains up to length 4/5 with several tails; aliases in the thorough tier) typed nil pointers to Stack / Condition / alias as leaves; x mutex placement (none, all, root only, all but root, alternating) x behaviour mode (none, forward indices, negative indices, capacity reached with refused Insert/Push/Replace/Remove/Swap made beforehand, all); oracle: identical depth-first leaf/Condition sequence, result reachable from the input by unwrapping redexes only (receiver never unwrapped), equal normal forms, no panic, no re-acquisition of a held mutex (lock hooks), no mutex left held; non-trivial = distinct cases in which Reveal changed the structure"
 		c.Bound["trees"] = len(trees)
-		behs := []int{0, 1, 3}
+		behs := []int{0, 1, 3, 5}
 		if !c.Quick() {
-			behs = []int{0, 1, 2, 3, 4}
+			behs = []int{0, 1, 2, 3, 4, 5}
 		}
 		c.Bound["mutex_modes"] = len(modes)
 		c.Bound["behaviour_modes"] = len(behs)
